@@ -81,14 +81,24 @@ def parse_log_line(line, fmt):
     try:
         if fmt == "console":
             f = line.split("\t")
-            if len(f) < 3 or not CONSOLE_RE.match(f[0]) or f[1] not in LAYERS:
+            if len(f) < 3 or not CONSOLE_RE.match(f[0]) or not f[1] or not f[2]:
                 raise ValueError("prolog")
+            if f[1] not in LAYERS:
+                return _blank("app", f[2])          # an event of a layer the statements do not speak of
             ev = _blank(f[1], f[2])
             rest = f[3:]
             if f[1] == "arp":
-                if len(rest) < 5:
+                if len(rest) < 4:
                     raise ValueError("arp fields")
-                ev["ms"], ev["md"], ev["is"], ev["id"] = _mac(rest[0]), _mac(rest[1]), _ip(rest[2]), _ip(rest[3])
+                col = [("" if c in ("-", "?", "--") else c) for c in rest[:4]]
+                if col[0]:
+                    ev["ms"] = _mac(col[0])
+                if col[1]:
+                    ev["md"] = _mac(col[1])
+                if col[2]:
+                    ev["is"] = _ip(col[2])
+                if col[3]:
+                    ev["id"] = _ip(col[3])
             else:
                 # seven positional columns (MACs, IPs, transport, ports); what follows them is the layer's own
                 # business; an empty column or a placeholder ("-", "?") means "not known at this layer"
@@ -120,8 +130,10 @@ def parse_log_line(line, fmt):
                 if k in kv:
                     raise ValueError("dup")
                 kv[k] = v
-            if not toks or not toks[0].startswith("ts=") or kv.get("proto") not in LAYERS or "verb" not in kv:
+            if not toks or not toks[0].startswith("ts=") or not kv.get("proto") or "verb" not in kv:
                 raise ValueError("prolog")
+            if kv["proto"] not in LAYERS:
+                return _blank("app", kv["verb"])    # an event of a layer the statements do not speak of
             if not CONSOLE_RE.match(kv["ts"]):
                 raise ValueError("ts")
             ev = _blank(kv["proto"], kv["verb"])
